@@ -33,6 +33,8 @@ Definition oerr_eqb : option err -> option err -> bool := option_eqb err_eqb.
 Definition obs_dicts (o : result (list sdict)) : result (list dict) :=
   match o with Ok l => Ok (map dec_dict l) | Err e => Err e end.
 
+Definition is_some {A} (o : option A) : bool := match o with Some _ => true | None => false end.
+
 Definition or_else {A} (o : option A) (d : A) : A := match o with Some x => x | None => d end.
 
 (** the four re-reads, with the sharing undone *)
@@ -61,12 +63,18 @@ Fixpoint model_steps (d : dict) (ops : list (str * str)) : list (option err * di
     let (r, df) := model_steps (snd st) ops' in (st :: r, df)
   end.
 
-(** a recorded state must be the model's; an unrecorded one is not compared *)
-Fixpoint states_agree (m : list dict) (o : list (option dict)) : bool :=
+(** A recorded state must be the model's; an unrecorded one is not compared.
+    The harness must have recorded the state after the last assignment, after
+    every assignment the model refuses and before it ([prev_rec]: the state
+    before the current assignment is known; the initial one is the empty mapping). *)
+Fixpoint states_agree (prev_rec : bool) (m : list (option err * dict)) (o : list (option dict)) : bool :=
   match m, o with
   | [], [] => true
-  | d :: m', s :: o' =>
-      (match s with Some d' => dict_eqb d d' | None => true end) && states_agree m' o'
+  | (e, d) :: m', s :: o' =>
+      (match s with Some d' => dict_eqb d d' | None => true end)
+      && (match e with Some _ => prev_rec && is_some s | None => true end)
+      && (match m' with [] => is_some s | _ => true end)
+      && states_agree (is_some s) m' o'
   | _, _ => false
   end.
 
@@ -74,7 +82,7 @@ Definition agree (c : case) : bool :=
   let (steps, d) := model_steps [] (dec_dict (c_ops c)) in
   let text := dump d in
   list_eqb oerr_eqb (map fst steps) (c_errs c)
-  && states_agree (map snd steps) (dec_states (c_states c))
+  && states_agree true steps (dec_states (c_states c))
   && str_eqb text (dec (c_dump c))
   && result_eqb dicts_eqb (iter_paragraphs CDeb822 false (InStr text)) (r_nows_str c)
   && result_eqb dicts_eqb (iter_paragraphs CDeb822 false (InFile text)) (r_nows_file c)
@@ -82,8 +90,6 @@ Definition agree (c : case) : bool :=
   && result_eqb dicts_eqb (iter_paragraphs CDeb822 true (InFile text)) (r_ws_file c).
 
 (** * The property *)
-
-Definition is_some {A} (o : option A) : bool := match o with Some _ => true | None => false end.
 
 (** Every assignment: a refusal is a ValueError and leaves names and values as
     they were (both states must have been recorded); a value that ends in LF,
